@@ -1142,7 +1142,7 @@ func solveFileInner(o *Obligation, file string, cfg *SolveConfig) {
 	settled := false
 	if !o.ExpectSat && !false /*allAgree handled by the cross-check*/ {
 		// most obligations are settled by the full query within a second or two
-		settled = race([]string{"z3", "z3new", "z3e"}, 2)
+		settled = race([]string{"z3", "z3new", "z3e", "cvc5", "z3e1"}, 6)
 	}
 	if !settled {
 		if done := func() bool {
